@@ -20,7 +20,7 @@ theorem sbArith_iff (P Q p q : Int) : sbArith P Q p q = true ↔
     (P = 0 ∨ Q = 0 ∨ P.natAbs = Q.natAbs) ∧ p * Q = q * P ∧ 0 < p * P + q * Q ∧
       p * p + q * q < P * P + Q * Q := by
   unfold sbArith
-  simp only [Bool.and_eq_true, Bool.or_eq_true, beq_iff_eq, decide_eq_true_eq, and_assoc]
+  simp only [Bool.and_eq_true, Bool.or_eq_true, beq_iff_eq, decide_eq_true_eq, and_assoc, or_assoc]
 
 private theorem mul_self_le_of_natAbs_le (V v : Int) (h : V.natAbs ≤ v.natAbs) : V * V ≤ v * v := by
   rw [← Int.natAbs_mul_self (a := V), ← Int.natAbs_mul_self (a := v)]
@@ -35,74 +35,97 @@ theorem sbArith_of_dir (u : Dir) (n t : Int) (ht : 0 < t) (htn : t < n) :
   have h1 : 0 < t * n := Int.mul_pos ht (by omega)
   have h2 : t * t < n * n := Int.mul_lt_mul htn (by omega) ht (by omega)
   rw [sbArith_iff]
-  cases u <;>
-    simp only [Dir.df, Dir.dr, Int.mul_zero, Int.mul_one, Int.mul_neg, Int.neg_mul, Int.neg_neg,
-      Int.zero_mul, Int.add_zero, Int.zero_add] <;>
+  cases u <;> refine ⟨?_, ?_, ?_, ?_⟩ <;>
+    (simp only [Dir.df, Dir.dr, Int.mul_zero, Int.mul_one, Int.mul_neg, Int.neg_mul, Int.neg_neg,
+      Int.zero_mul, Int.add_zero, Int.zero_add, true_or, or_true] <;>
+     omega)
+
+/-- one-dimensional core: a positive product and a smaller square -/
+private theorem one_dim_pos (Q q : Int) (hQ : 0 < Q) (h3 : 0 < q * Q) (h4 : q * q < Q * Q) :
+    0 < q ∧ q < Q := by
+  constructor
+  · rcases Int.lt_trichotomy 0 q with h | h | h
+    · exact h
+    · subst h; omega
+    · have := Int.mul_nonneg (a := -q) (b := Q) (by omega) (by omega)
+      rw [Int.neg_mul] at this
+      omega
+  · rcases Int.lt_trichotomy q Q with h | h | h
+    · exact h
+    · subst h; omega
+    · have := mul_self_le_of_natAbs_le Q q (by omega)
+      omega
+
+private theorem one_dim (Q q : Int) (h3 : 0 < q * Q) (h4 : q * q < Q * Q) :
+    (0 < Q ∧ 0 < q ∧ q < Q) ∨ (Q < 0 ∧ q < 0 ∧ Q < q) := by
+  rcases Int.lt_trichotomy Q 0 with h | h | h
+  · right
+    have := one_dim_pos (-Q) (-q) (by omega) (by rw [Int.neg_mul_neg]; exact h3)
+      (by rw [Int.neg_mul_neg, Int.neg_mul_neg]; exact h4)
+    omega
+  · subst h; omega
+  · left
+    have := one_dim_pos Q q h h3 h4
     omega
 
-macro "split_pos7 " Q:term : tactic =>
-  `(tactic| (rcases (by omega : $Q = 1 ∨ $Q = 2 ∨ $Q = 3 ∨ $Q = 4 ∨ $Q = 5 ∨ $Q = 6 ∨ $Q = 7) with
-      rfl | rfl | rfl | rfl | rfl | rfl | rfl))
-macro "split_neg7 " Q:term : tactic =>
-  `(tactic| (rcases (by omega : $Q = -1 ∨ $Q = -2 ∨ $Q = -3 ∨ $Q = -4 ∨ $Q = -5 ∨ $Q = -6 ∨ $Q = -7) with
-      rfl | rfl | rfl | rfl | rfl | rfl | rfl))
-
-/-- arithmetic form ⇒ direction form (coordinate differences of squares are within `[-7, 7]`) -/
-theorem dir_of_sbArith (P Q p q : Int) (hP : -7 ≤ P ∧ P ≤ 7) (hQ : -7 ≤ Q ∧ Q ≤ 7)
-    (h : sbArith P Q p q = true) :
+/-- arithmetic form ⇒ direction form -/
+theorem dir_of_sbArith (P Q p q : Int) (h : sbArith P Q p q = true) :
     ∃ (u : Dir) (n t : Nat), 0 < t ∧ t < n ∧ P = n * u.df ∧ Q = n * u.dr ∧
       p = t * u.df ∧ q = t * u.dr := by
   rw [sbArith_iff] at h
   obtain ⟨h1, h2, h3, h4⟩ := h
-  have hpP := mul_self_le_of_natAbs_le P p
-  have hqQ := mul_self_le_of_natAbs_le Q q
-  have hp0 := mul_self_nonneg' p
-  have hq0 := mul_self_nonneg' q
-  have e1 : p = q → p * p = q * q := fun h => by rw [h]
-  have e2 : p = -q → p * p = q * q := fun h => by rw [h, Int.neg_mul_neg]
-  have e3 : p = 0 → p * p = 0 := fun h => by rw [h]; rfl
-  have e4 : q = 0 → q * q = 0 := fun h => by rw [h]; rfl
-  rcases (by omega : P = 0 ∨ Q = 0 ∨ P = Q ∨ P = -Q) with hc | hc | hc | hc
+  rcases (by omega : P = 0 ∨ (P ≠ 0 ∧ Q = 0) ∨ (Q ≠ 0 ∧ P = Q) ∨ (Q ≠ 0 ∧ P = -Q)) with
+    hc | ⟨hn, hc⟩ | ⟨hn, hc⟩ | ⟨hn, hc⟩
   · -- vertical
     subst hc
-    rcases Int.lt_trichotomy Q 0 with hQ0 | hQ0 | hQ0
+    simp only [Int.mul_zero, Int.zero_add] at h2 h3 h4
+    have hp : p = 0 := by
+      rcases Int.mul_eq_zero.mp h2 with h | h
+      · exact h
+      · subst h; omega
+    subst hp
+    simp only [Int.mul_zero, Int.zero_add] at h4
+    rcases one_dim Q q h3 h4 with ⟨a, b, c⟩ | ⟨a, b, c⟩
+    · refine ⟨.n, Q.toNat, q.toNat, ?_⟩
+      simp only [Dir.df, Dir.dr]; omega
     · refine ⟨.s, Q.natAbs, q.natAbs, ?_⟩
-      simp only [Dir.df, Dir.dr]
-      split_neg7 Q <;> omega
-    · subst hQ0; omega
-    · refine ⟨.n, Q.natAbs, q.natAbs, ?_⟩
-      simp only [Dir.df, Dir.dr]
-      split_pos7 Q <;> omega
+      simp only [Dir.df, Dir.dr]; omega
   · -- horizontal
     subst hc
-    rcases Int.lt_trichotomy P 0 with hP0 | hP0 | hP0
+    simp only [Int.mul_zero, Int.add_zero] at h2 h3 h4
+    have hq : q = 0 := by
+      rcases Int.mul_eq_zero.mp h2.symm with h | h
+      · exact h
+      · exact absurd h hn
+    subst hq
+    simp only [Int.mul_zero, Int.add_zero] at h4
+    rcases one_dim P p h3 h4 with ⟨a, b, c⟩ | ⟨a, b, c⟩
+    · refine ⟨.e, P.toNat, p.toNat, ?_⟩
+      simp only [Dir.df, Dir.dr]; omega
     · refine ⟨.w, P.natAbs, p.natAbs, ?_⟩
-      simp only [Dir.df, Dir.dr]
-      split_neg7 P <;> omega
-    · subst hP0; omega
-    · refine ⟨.e, P.natAbs, p.natAbs, ?_⟩
-      simp only [Dir.df, Dir.dr]
-      split_pos7 P <;> omega
+      simp only [Dir.df, Dir.dr]; omega
   · -- diagonal
     subst hc
-    rcases Int.lt_trichotomy Q 0 with hQ0 | hQ0 | hQ0
-    · refine ⟨.sw, Q.natAbs, q.natAbs, ?_⟩
-      simp only [Dir.df, Dir.dr]
-      split_neg7 Q <;> omega
-    · subst hQ0; omega
-    · refine ⟨.ne, Q.natAbs, q.natAbs, ?_⟩
-      simp only [Dir.df, Dir.dr]
-      split_pos7 Q <;> omega
+    have hp : p = q := Int.eq_of_mul_eq_mul_right hn h2
+    subst hp
+    rcases one_dim P p (by omega) (by omega) with ⟨a, b, c⟩ | ⟨a, b, c⟩
+    · refine ⟨.ne, P.toNat, p.toNat, ?_⟩
+      simp only [Dir.df, Dir.dr]; omega
+    · refine ⟨.sw, P.natAbs, p.natAbs, ?_⟩
+      simp only [Dir.df, Dir.dr]; omega
   · -- anti-diagonal
     subst hc
-    rcases Int.lt_trichotomy Q 0 with hQ0 | hQ0 | hQ0
+    have hp : p = -q := by
+      apply Int.eq_of_mul_eq_mul_right hn
+      rw [h2, Int.mul_neg, Int.neg_mul]
+    subst hp
+    rw [Int.neg_mul_neg] at h3 h4
+    rw [Int.neg_mul_neg] at h4
+    rcases one_dim Q q (by omega) (by omega) with ⟨a, b, c⟩ | ⟨a, b, c⟩
+    · refine ⟨.nw, Q.toNat, q.toNat, ?_⟩
+      simp only [Dir.df, Dir.dr]; omega
     · refine ⟨.se, Q.natAbs, q.natAbs, ?_⟩
-      simp only [Dir.df, Dir.dr]
-      split_neg7 Q <;> omega
-    · subst hQ0; omega
-    · refine ⟨.nw, Q.natAbs, q.natAbs, ?_⟩
-      simp only [Dir.df, Dir.dr]
-      split_pos7 Q <;> omega
+      simp only [Dir.df, Dir.dr]; omega
 
 /-- the arithmetic betweenness in direction form -/
 theorem strictlyBetween_iff (a x b : Sq) : strictlyBetween a x b = true ↔
@@ -113,7 +136,7 @@ theorem strictlyBetween_iff (a x b : Sq) : strictlyBetween a x b = true ↔
   constructor
   · intro h
     obtain ⟨u, n, t, ht, htn, hP, hQ, hp, hq⟩ :=
-      dir_of_sbArith _ _ _ _ (by omega) (by omega) h
+      dir_of_sbArith _ _ _ _ h
     refine ⟨u, n, t, ?_, ?_, htn⟩
     · rw [onRay_iff]; refine ⟨by omega, by omega, by omega⟩
     · rw [onRay_iff]; refine ⟨ht, by omega, by omega⟩
